@@ -251,6 +251,14 @@ func runC07(cw *caseWriter, tier string, seed uint64) {
 	// the server itself a non-voter (it campaigns only on TimeoutNow); monitors requestvote-sent-to-non-voter /
 	// leader-without-vote-quorum-of-voters are emitted for C07 too (c14emitMon)
 	runC14cand(cw, tier, &rng{s: seed*43 + 11})
+	// "a leader appends a new configuration only after the previous one is committed and after an entry of its own term is
+	// committed": leader sequences (the gate configurationChangeChIfStable observed between the ops; monitors
+	// membership-change-accepted-before-own-term-entry-committed / -while-previous-uncommitted)
+	if tier == "quick" {
+		c08genN(cw, 600, &rng{s: seed*47 + 5})
+	} else {
+		c08genN(cw, 10000, &rng{s: seed*47 + 5})
+	}
 	// "never counted in commitment": the commitment tables (configurations x suffrage x match reports, each followed by setConfiguration calls)
 	rc := &rng{s: seed*29 + 3}
 	if tier == "quick" {
